@@ -28,7 +28,8 @@ def used_words(r, sc, text):
     if r is None or r.resolution is None:
         return []
     ids = [p for p in r.production if isinstance(p, int)]
-    txt = re.sub('#[a-zA-Z0-9_-]+', '', qa.CTP._preprocess_string(text)).strip()
+    # the text the engine matched on: labels cut out, runs of blanks collapsed (match offsets refer to THIS text)
+    txt = re.sub(' +', ' ', re.sub('#[a-zA-Z0-9_-]+', '', qa.CTP._preprocess_string(text)).strip())
     res = []
     for pp in sc.init_pps:
         if [m.id for m in pp.prod] != ids:
